@@ -170,7 +170,14 @@ def build_instance(spec, name="verif"):
         cls = TaggedOperation if route == 3 else Operation
         jobs = [[cls(list(ms), d) for ms, d in job] for job in spec]
         JobShopInstance([list(reversed(job)) for job in reversed(jobs)], name="an earlier arrangement")
-        return JobShopInstance(jobs, name=name)
+        inst = JobShopInstance(jobs, name=name)
+        if route == 4:
+            # ... and a variant derived afterwards from DEEP COPIES of its jobs (a job dropped, the others in
+            # another order - comparing scenarios): copies are independent objects, the instance must not notice
+            import copy
+
+            JobShopInstance([list(job) for job in reversed(copy.deepcopy(inst.jobs)[1:])], name="a variant")
+        return inst
     if route >= 3 or not spec:
         jobs = [[Operation(list(ms), d) for ms, d in job] for job in spec]
         return JobShopInstance(jobs, name=name)
